@@ -41,6 +41,9 @@ Definition summary_skel (e : entity) (s : summary) : list (N * N * bytes) :=
   [(0, 2, summary_topic_name e s ++ bs "Message");
    (2, 2, to_camel (summary_topic_name e s) ++ bs "Topic")].
 
+Definition schema_skel (sc : eschema) : N * N * bytes :=
+  match sc with SObject n _ => (0, 0, n) | SOneof n _ => (0, 0, n) | SEnum n _ => (1, 0, n) end.
+
 (* the documented expansion: names only *)
 Definition spec_skeleton (e : entity) : list (N * N * bytes) :=
   let C := camel_name e in
@@ -52,7 +55,7 @@ Definition spec_skeleton (e : entity) : list (N * N * bytes) :=
   ++ flat_map (command_skel e) (e_commands e)
   ++ [(0, 2, C ++ bs "EventMessage"); (2, 2, to_camel (C ++ bs "Publish") ++ bs "Topic")]
   ++ flat_map (summary_skel e) (e_summaries e)
-  ++ map (fun sc => (0, 0, fst sc)) (e_schemas e).      (* objects declared in the entity block *)
+  ++ map schema_skel (e_schemas e).      (* objects / oneofs / enums declared in the entity block *)
 
 Lemma map_flat_map : forall {A B C} (f : B -> C) (g : A -> list B) l,
   map f (flat_map g l) = flat_map (fun x => map f (g x)) l.
@@ -107,11 +110,13 @@ Proof.
   rewrite (flat_map_ext' _ _ _ (command_components_skel e)).
   rewrite (flat_map_ext' _ _ _ (summary_components_skel e)).
   rewrite query_components_skel, publish_components_skel, map_map.
-  rewrite <- !app_assoc. reflexivity.
+  assert (Es : map (fun x => skel (schema_component x)) (e_schemas e) = map schema_skel (e_schemas e)).
+  { apply map_ext. intros [n fs|n fs|n os]; reflexivity. }
+  rewrite Es, <- !app_assoc. reflexivity.
 Qed.
 
 (* ---- closedness: every reference of the expansion resolves ------------------- *)
-Definition resolves (D : list (bool * bytes)) (f : ofield) : bool := ref_resolves D (f_type f).
+Definition resolves (D : list (bool * bytes)) (f : ofield) : bool := field_resolves D f.
 
 Lemma closed_unfold : forall cs, closed cs = forallb (resolves (defined cs)) (fields_of cs).
 Proof. reflexivity. Qed.
@@ -131,20 +136,44 @@ Qed.
 
 Lemma resolves_object : forall D n j r q fl p t fi,
   In (false, n) D -> resolves D (mkF j (TObject [] n) r q fl p t fi) = true.
-Proof. intros. unfold resolves, ref_resolves. cbn [f_type]. now apply resolves_local. Qed.
+Proof. intros. unfold resolves, field_resolves, ref_resolves. cbn [f_type f_inline mkF]. rewrite andb_true_r. now apply resolves_local. Qed.
 Lemma resolves_oneof : forall D n j r q fl p t fi,
   In (false, n) D -> resolves D (mkF j (TOneof [] n) r q fl p t fi) = true.
-Proof. intros. unfold resolves, ref_resolves. cbn [f_type]. now apply resolves_local. Qed.
+Proof. intros. unfold resolves, field_resolves, ref_resolves. cbn [f_type f_inline mkF]. rewrite andb_true_r. now apply resolves_local. Qed.
 Lemma resolves_enum : forall D n j r q fl p t fi,
   In (true, n) D -> resolves D (mkF j (TEnum [] n) r q fl p t fi) = true.
-Proof. intros. unfold resolves, ref_resolves. cbn [f_type]. now apply resolves_local. Qed.
+Proof. intros. unfold resolves, field_resolves, ref_resolves. cbn [f_type f_inline mkF]. rewrite andb_true_r. now apply resolves_local. Qed.
 
 (* scalar and key fields carry no reference *)
-Definition is_ref_field (u : ufield) : bool := match uf_kind u with KObject _ => true | _ => false end.
+Definition is_ref_item (i : ikind) : bool :=
+  match i with IObject _ | IOneof _ | IEnum _ => true | _ => false end.
+Definition is_ref_field (u : ufield) : bool :=
+  match uf_kind u with
+  | KObject _ | KOneof _ | KEnum _ => true
+  | KArray i => is_ref_item i
+  | KMap i => is_ref_item i
+  | KInlineObject fs => existsb (fun s => is_ref_item (sf_kind s)) fs
+  | KInlineOneof fs => existsb (fun s => is_ref_item (sf_kind s)) fs
+  | _ => false
+  end.
+Lemma item_scalar_resolves : forall D i, is_ref_item i = false -> ref_resolves D (otype_of_item i) = true.
+Proof. intros D [pt k|tn k|n|n|n] H; try reflexivity; discriminate. Qed.
+Lemma sfields_scalar_resolve : forall D fs, existsb (fun s => is_ref_item (sf_kind s)) fs = false ->
+  forallb (fun s => ref_resolves D (otype_of_item (sf_kind s))) fs = true.
+Proof.
+  induction fs as [|s fs IH]; intros H; [reflexivity|]. cbn in H. apply orb_false_iff in H. destruct H as [H1 H2].
+  cbn [forallb]. now rewrite (item_scalar_resolves D _ H1), IH.
+Qed.
 Lemma resolves_ufield_scalar : forall D u, is_ref_field u = false -> resolves D (of_ufield u) = true.
-Proof. intros D [n [pt k|nm|p f t] r o] H; try reflexivity. discriminate. Qed.
+Proof.
+  intros D [n [pt k|nm|nm|nm|p f t|tn k|i|i|fs|fs|os] r o] H; try reflexivity; try discriminate.
+  - unfold resolves, field_resolves. cbn. rewrite andb_true_r. now apply item_scalar_resolves.
+  - unfold resolves, field_resolves. cbn. rewrite andb_true_r. now apply item_scalar_resolves.
+  - unfold resolves, field_resolves. cbn. now apply sfields_scalar_resolve.
+  - unfold resolves, field_resolves. cbn. now apply sfields_scalar_resolve.
+Qed.
 
-(* what the user's own object references must name for the file to compile *)
+(* what the user's own object references must name for the file to convert *)
 Definition user_refs_ok (e : entity) (D : list (bool * bytes)) : bool :=
   forallb (fun u => resolves D (of_ufield u)) (all_ufields e).
 
@@ -177,7 +206,7 @@ Proof.
   intros e sm u Hs H. unfold all_ufields. do 4 (apply in_or_app; right). apply in_or_app. left.
   apply in_flat_map. exists sm. split; assumption.
 Qed.
-Lemma in_all_schema : forall e sc u, In sc (e_schemas e) -> In u (snd sc) -> In u (all_ufields e).
+Lemma in_all_schema : forall e sc u, In sc (e_schemas e) -> In u (schema_fields sc) -> In u (all_ufields e).
 Proof.
   intros e sc u Hs H. unfold all_ufields. do 5 (apply in_or_app; right).
   apply in_flat_map. exists sc. split; assumption.
@@ -302,14 +331,15 @@ Section Closed.
     rewrite ok_ufields; [reflexivity|]. intros u H. now apply (in_all_summary e sm).
   Qed.
 
-  Lemma ok_schemas : ok (fields_of (map (fun sc => CMsg 0 (mkMsg (fst sc) None false (map of_ufield (snd sc)) []))
-                                        (e_schemas e))) = true.
+  Lemma ok_schemas : ok (fields_of (map schema_component (e_schemas e))) = true.
   Proof.
     unfold ok. apply forallb_forall. intros f Hf. unfold fields_of in Hf.
     apply in_flat_map in Hf. destruct Hf as [comp [Hc Hf]].
     apply in_map_iff in Hc. destruct Hc as [sc [<- Hsc]].
-    cbn [m_fields m_nested flat_map app] in Hf. rewrite app_nil_r in Hf.
-    apply in_map_iff in Hf. destruct Hf as [u [<- Hu]]. apply HUser. now apply (in_all_schema e sc).
+    destruct sc as [n fs|n fs|n os]; cbn [schema_component m_fields m_nested flat_map app] in Hf;
+      try rewrite app_nil_r in Hf; try (destruct Hf; fail);
+      apply in_map_iff in Hf; destruct Hf as [u [<- Hu]]; apply HUser;
+      [apply (in_all_schema e (SObject n fs))|apply (in_all_schema e (SOneof n fs))]; assumption.
   Qed.
 
   Lemma ok_flat_map : forall {A} (g : A -> list component) l,
@@ -426,40 +456,63 @@ Proof.
     cbn [m_fields m_nested flat_map]. rewrite app_nil_r. right. now apply in_map.
   - (* entity-level schemas *) apply in_flat_map in Hu. destruct Hu as [sc [Hs Hu]].
     rewrite !fields_of_app. do 5 (apply in_or_app; right).
-    unfold fields_of. apply in_flat_map.
-    exists (CMsg 0 (mkMsg (fst sc) None false (map of_ufield (snd sc)) [])). split.
+    unfold fields_of. apply in_flat_map. exists (schema_component sc). split.
     + apply in_map_iff. exists sc. split; [reflexivity|assumption].
-    + cbn [m_fields m_nested flat_map]. rewrite app_nil_r. now apply in_map.
+    + destruct sc as [n fs|n fs|n os]; cbn [schema_fields] in Hu; [| |destruct Hu];
+        cbn [schema_component m_fields m_nested flat_map]; rewrite app_nil_r; now apply in_map.
 Qed.
 
-(* the compiler accepts what entityNode.run accepts as soon as the user's fields are fine *)
-Theorem compile_expand : forall e,
-  (forall fl, user_refs_ok e (defined (expand_with e fl)) = true) ->
-  fields_ok e = true -> query_params_ok e = true -> command_params_ok e = true -> compile e = expand e.
+Lemma expand_total_aux : forall e, is_panic (expand e) = false /\ expand e <> OutOfFuel.
 Proof.
-  intros e HU Hok Hq Hc. unfold compile, expand.
+  intros e. unfold expand. destruct (default_filters e _); [|split; [reflexivity|discriminate]].
+  destruct (nodup_bytes _); split; try reflexivity; discriminate.
+Qed.
+
+(* the compiler accepts what entityNode.run accepts as soon as the user's fields are fine
+   (and the query block has no list-request settings: those panic, see [convert_panics]) *)
+Theorem compile_expand : forall e,
+  list_settings e = false ->
+  (forall fl, user_refs_ok e (defined (expand_with e fl)) = true) ->
+  fields_ok e = true -> query_params_ok e = true -> command_params_ok e = true -> convert e = expand e.
+Proof.
+  intros e Hls HU Hok Hq Hc. unfold convert, expand. rewrite Hls.
   destruct (default_filters e _) as [fl|]; [|reflexivity].
   destruct (nodup_bytes _); [|reflexivity]. now rewrite (expand_closed e fl (HU fl)), Hok, Hq, Hc.
 Qed.
 
-(* the only compile errors the expansion itself can cause are in the user's own fields: an
+(* the only conversion errors the expansion itself can cause are in the user's own fields: an
    object reference that names nothing, an optional/required clash, a path parameter that is
    not a request field; a reference made by entity.go is never the cause *)
-Theorem compile_errors : forall e cs, expand e = Ok cs ->
-  compile e = if user_refs_ok e (defined cs) then
+Theorem compile_errors : forall e cs, expand e = Ok cs -> list_settings e = false ->
+  convert e = if user_refs_ok e (defined cs) then
                 if fields_ok e then
                   if query_params_ok e && command_params_ok e then Ok cs
                   else Err "missing field in request"
                 else Err "cannot be both required and optional"
               else Err "type not found".
 Proof.
-  intros e cs H. unfold compile. rewrite H.
+  intros e cs H Hls. unfold convert. rewrite H, Hls.
   unfold expand in H. destruct (default_filters e _) as [fl|]; [|discriminate].
   destruct (nodup_bytes _); [|discriminate]. inversion H; subst.
   destruct (user_refs_ok e (defined (expand_with e fl))) eqn:EU.
   - now rewrite (expand_closed e fl EU).
   - destruct (closed (expand_with e fl)) eqn:Ec; [|reflexivity].
     rewrite (closed_user_refs e fl Ec) in EU. discriminate.
+Qed.
+
+(* Go panics are not hidden: the conversion panics exactly when the walker accepted a declaration
+   whose query block carries list-request settings *)
+Theorem convert_panics : forall e,
+  is_panic (convert e) = true <-> (exists cs, expand e = Ok cs) /\ list_settings e = true.
+Proof.
+  intros e. unfold convert. destruct (expand e) as [cs| | |] eqn:E.
+  - destruct (list_settings e); cbn.
+    + split; [intros _; split; [now exists cs|reflexivity]|reflexivity].
+    + split; [|intros [_ H]; discriminate].
+      destruct (closed cs); [destruct (fields_ok e); [destruct (query_params_ok e && command_params_ok e)|]|]; discriminate.
+  - cbn. split; [discriminate|intros [[cs H] _]; discriminate].
+  - pose proof (expand_total_aux e) as [Hp _]. rewrite E in Hp. discriminate.
+  - cbn. split; [discriminate|intros [[cs H] _]; discriminate].
 Qed.
 
 (* ---- the main file holds exactly Keys, Data, State, EventType, Event -------------- *)
@@ -487,13 +540,17 @@ Proof.
   intros m' Hm'. apply H. now right.
 Qed.
 
-Definition schema_msg (sc : bytes * list ufield) : omsg :=
-  mkMsg (fst sc) None false (map of_ufield (snd sc)) [].
+Definition schema_msgs (sc : eschema) : list omsg :=
+  match sc with
+  | SObject n fs => [mkMsg n None false (map of_ufield fs) []]
+  | SOneof n fs => [mkMsg n None true (map of_ufield fs) []]
+  | SEnum _ _ => []
+  end.
 
 Theorem main_file_messages : forall e fl,
   msgs_of_file 0 (expand_with e fl) =
     [keys_msg e; data_msg e; state_msg e fl; event_type_msg e; event_msg e]
-    ++ map schema_msg (e_schemas e).
+    ++ flat_map schema_msgs (e_schemas e).
 Proof.
   intros e fl. unfold expand_with. rewrite !msgs_of_file_app.
   assert (Hq : msgs_of_file 0 (query_components e) = []).
@@ -504,11 +561,11 @@ Proof.
     unfold method_components. cbn [fst]. destruct (option_map _ (md_response md)); reflexivity. }
   assert (Hs : msgs_of_file 0 (flat_map (summary_components e) (e_summaries e)) = []).
   { apply msgs0_flat_map_nil. intros s. reflexivity. }
-  assert (Hx : msgs_of_file 0 (map (fun sc => CMsg 0 (mkMsg (fst sc) None false (map of_ufield (snd sc)) []))
-                                   (e_schemas e)) = map schema_msg (e_schemas e)).
-  { induction (e_schemas e) as [|sc l IH]; [reflexivity|]. cbn [map msgs_of_file flat_map].
-    fold (msgs_of_file 0 (map (fun sc0 => CMsg 0 (mkMsg (fst sc0) None false (map of_ufield (snd sc0)) [])) l)).
-    rewrite IH. reflexivity. }
+  assert (Hx : msgs_of_file 0 (map schema_component (e_schemas e)) = flat_map schema_msgs (e_schemas e)).
+  { induction (e_schemas e) as [|sc l IH]; [reflexivity|]. cbn [map flat_map].
+    change (msgs_of_file 0 (schema_component sc :: map schema_component l))
+      with (msgs_of_file 0 ([schema_component sc] ++ map schema_component l)).
+    rewrite msgs_of_file_app, IH. f_equal. destruct sc; reflexivity. }
   rewrite Hq, Hc, Hs, Hx. reflexivity.
 Qed.
 
@@ -564,7 +621,7 @@ Lemma sel_expand : forall (sel : list component -> list bytes) P e fl,
   (forall c, Forall P (sel (command_components e c))) ->
   Forall P (sel (publish_components e)) ->
   (forall s, Forall P (sel (summary_components e s))) ->
-  (forall sc, sel [CMsg 0 (mkMsg (fst sc) None false (map of_ufield (snd sc)) [])] = []) ->
+  (forall sc, sel [schema_component sc] = []) ->
   Forall P (sel (expand_with e fl)).
 Proof.
   intros sel P e fl Hnil Happ H1 H2 H3 H4 H5 H6. unfold expand_with. rewrite !Happ.
@@ -572,9 +629,8 @@ Proof.
   apply Forall_app; split; [now apply sel_flat_map|]. apply Forall_app; split; [exact H4|].
   apply Forall_app; split; [now apply sel_flat_map|].
   induction (e_schemas e) as [|sc l IH]; cbn [map]; [rewrite Hnil; constructor|].
-  change (CMsg 0 (mkMsg (fst sc) None false (map of_ufield (snd sc)) []) :: map _ l)
-    with ([CMsg 0 (mkMsg (fst sc) None false (map of_ufield (snd sc)) [])] ++
-          map (fun sc0 => CMsg 0 (mkMsg (fst sc0) None false (map of_ufield (snd sc0)) [])) l).
+  change (schema_component sc :: map schema_component l)
+    with ([schema_component sc] ++ map schema_component l).
   rewrite Happ, H6. exact IH.
 Qed.
 
@@ -588,19 +644,19 @@ Proof.
   assert (As : forall a b, service_entities (a ++ b) = service_entities a ++ service_entities b) by (intros; apply flat_map_app).
   assert (At : forall a b, topic_entities (a ++ b) = topic_entities a ++ topic_entities b) by (intros; apply flat_map_app).
   split; [|split].
-  - apply sel_expand; [reflexivity|exact Ap|cbn; repeat constructor| | |cbn; constructor|intros s; cbn; constructor|reflexivity].
+  - apply sel_expand; [reflexivity|exact Ap|cbn; repeat constructor| | |cbn; constructor|intros s; cbn; constructor|intros [n fs|n fs|n os]; reflexivity].
     + unfold query_components. apply ann_service; [reflexivity|exact Ap| |cbn; constructor].
       intros m [<-|[<-|[<-|[]]]]; cbn; constructor.
     + intros c. unfold command_components. apply ann_service; [reflexivity|exact Ap| |cbn; constructor].
       intros m Hm. apply in_map_iff in Hm. destruct Hm as [md [<- _]].
       unfold method_components. cbn [fst]. destruct (option_map _ (md_response md)); cbn; constructor.
-  - apply sel_expand; [reflexivity|exact As|cbn; constructor| | |cbn; constructor|intros s; cbn; constructor|reflexivity].
+  - apply sel_expand; [reflexivity|exact As|cbn; constructor| | |cbn; constructor|intros s; cbn; constructor|intros [n fs|n fs|n os]; reflexivity].
     + unfold query_components. apply ann_service; [reflexivity|exact As| |cbn; repeat constructor].
       intros m [<-|[<-|[<-|[]]]]; cbn; constructor.
     + intros c. unfold command_components. apply ann_service; [reflexivity|exact As| |cbn; repeat constructor].
       intros m Hm. apply in_map_iff in Hm. destruct Hm as [md [<- _]].
       unfold method_components. cbn [fst]. destruct (option_map _ (md_response md)); cbn; constructor.
-  - apply sel_expand; [reflexivity|exact At|cbn; constructor| | |cbn; repeat constructor|intros s; cbn; repeat constructor|reflexivity].
+  - apply sel_expand; [reflexivity|exact At|cbn; constructor| | |cbn; repeat constructor|intros s; cbn; repeat constructor|intros [n fs|n fs|n os]; reflexivity].
     + unfold query_components. apply ann_service; [reflexivity|exact At| |cbn; constructor].
       intros m [<-|[<-|[<-|[]]]]; cbn; constructor.
     + intros c. unfold command_components. apply ann_service; [reflexivity|exact At| |cbn; constructor].
@@ -630,21 +686,21 @@ Theorem keys_in_declaration_order : forall e,
   map f_json (m_fields (keys_msg e)) = map (fun k => uf_name (k_def k)) (e_keys e).
 Proof.
   intros e. unfold keys_msg. cbn [m_fields]. rewrite map_map. apply map_ext.
-  intros [[n [pt k|nm|p f t] r o] s]; reflexivity.
+  intros [[n [pt k|nm|nm|nm|p f t|tn k|i|i|fs|fs|os] r o] s]; reflexivity.
 Qed.
 
 Theorem primary_keys_required : forall e f,
   In f (m_fields (keys_msg e)) -> f_primary f = true -> f_required f = true.
 Proof.
   intros e f Hf Hp. unfold keys_msg in Hf. cbn [m_fields] in Hf.
-  apply in_map_iff in Hf. destruct Hf as [[[n [pt k|nm|p fk t] r o] s] [<- _]]; cbn in *; [discriminate|discriminate|].
+  apply in_map_iff in Hf. destruct Hf as [[[n [pt k|nm|nm|nm|p fk t|tn k|i|i|fs|fs|os] r o] s] [<- _]]; cbn in *; try discriminate.
   subst p. apply orb_true_r.
 Qed.
 
 Definition primary_keys (e : entity) : list ufield := filter is_primary (map k_def (e_keys e)).
 
 Lemma primary_is_key : forall u, is_primary u = true -> is_key_field u = true.
-Proof. intros [n [pt k|nm|p f t] r o] H; [discriminate|discriminate|reflexivity]. Qed.
+Proof. intros [n [pt k|nm|nm|nm|p f t|tn k|i|i|fs|fs|os] r o] H; try discriminate; reflexivity. Qed.
 
 (* the primary keys are, in declaration order, among the Get/Events path keys ... *)
 Theorem get_keys_primary : forall e, filter is_primary (get_keys e) = primary_keys e.
@@ -872,7 +928,7 @@ Theorem status_numbering : forall p l,
 Proof.
   intros p l H.
   assert (E : status_values p l = (p ++ bs "UNSPECIFIED", 0) :: number_from 1 p l).
-  { destruct l as [|s r]; [reflexivity|]. cbn [status_values]. now rewrite H. }
+  { destruct l as [|s r]; [reflexivity|]. unfold status_values. cbn [status_values_n]. now rewrite H. }
   split; [exact E|]. intros k Hk. rewrite E. cbn [nth_error].
   rewrite number_from_nth by assumption. f_equal. f_equal. lia.
 Qed.
@@ -918,7 +974,7 @@ Proof. induction l as [|s l IH]; intros i p; [reflexivity|]. cbn. now rewrite IH
 (* ... hence every default filter IS the name of a value of the status enum *)
 Theorem default_filters_are_enum_values : forall e fl f,
   default_filters e (requested_filters e) = Some fl -> In f fl ->
-  In f (map fst (status_values (status_prefix e) (e_status e))).
+  In f (map fst (entity_status_values e)).
 Proof.
   intros e fl f H Hf. destruct (default_filters_spec e _ fl H) as [HF ->].
   apply in_map_iff in Hf. destruct Hf as [s [<- Hs]].
@@ -926,8 +982,8 @@ Proof.
   apply existsb_exists in HF. destruct HF as [s' [Hin Heq]]. apply bytes_eqb_eq in Heq. subst s'.
   assert (G : In (status_value_name (status_prefix e) s)
                  (map (status_value_name (status_prefix e)) (e_status e))) by (now apply in_map).
-  destruct (e_status e) as [|s0 r] eqn:Es; [destruct Hin|].
-  cbn [status_values]. destruct (has_suffix (bs "UNSPECIFIED") s0).
+  unfold entity_status_values. destruct (e_status e) as [|s0 r] eqn:Es; [destruct Hin|].
+  cbn [status_values_n]. destruct (has_suffix (bs "UNSPECIFIED") s0 && (first_status_number e =? 0)).
   - cbn [map fst]. rewrite number_from_names. exact G.
   - cbn [map fst]. right. rewrite number_from_names. exact G.
 Qed.
@@ -1075,13 +1131,22 @@ Qed.
 Lemma ref_resolves_mono : forall D D' t,
   incl D D' -> ref_resolves D t = true -> ref_resolves D' t = true.
 Proof.
-  intros D D' t Hi H. unfold ref_resolves in *.
+  intros D D' t Hi.
   assert (L : forall (b : bool) n,
             existsb (fun d => Bool.eqb (fst d) b && bytes_eqb (snd d) n) D = true ->
             existsb (fun d => Bool.eqb (fst d) b && bytes_eqb (snd d) n) D' = true).
   { intros b n Hx. apply existsb_exists in Hx. destruct Hx as [d [Hd Hp]].
     apply existsb_exists. exists d. split; [now apply Hi|assumption]. }
-  destruct t as [pt k|p n|p n|p n]; [reflexivity| | |]; destruct p; try assumption; now apply L.
+  induction t as [pt k|p n|p n|p n|tn k|v IH|n k]; intros H; cbn [ref_resolves] in *;
+    [reflexivity| | | |reflexivity|now apply IH|reflexivity]; destruct p; try assumption; now apply L.
+Qed.
+
+Lemma field_resolves_mono : forall D D' f,
+  incl D D' -> field_resolves D f = true -> field_resolves D' f = true.
+Proof.
+  intros D D' f Hi H. unfold field_resolves in *. apply andb_true_iff in H. destruct H as [H1 H2].
+  rewrite (ref_resolves_mono D D' _ Hi H1). cbn [andb]. destruct (f_inline f) as [il|]; [|reflexivity].
+  apply forallb_forall. intros s Hs. rewrite forallb_forall in H2. exact (ref_resolves_mono D D' _ Hi (H2 s Hs)).
 Qed.
 
 Lemma closed_app : forall a b, closed a = true -> closed b = true -> closed (a ++ b) = true.
@@ -1089,36 +1154,36 @@ Proof.
   intros a b Ha Hb. rewrite closed_unfold in *. rewrite fields_of_app, defined_app, forallb_app.
   apply andb_true_iff. split; apply forallb_forall; intros f Hf.
   - rewrite forallb_forall in Ha. specialize (Ha f Hf). unfold resolves in *.
-    eapply ref_resolves_mono; [|exact Ha]. apply incl_appl, incl_refl.
+    eapply field_resolves_mono; [|exact Ha]. apply incl_appl, incl_refl.
   - rewrite forallb_forall in Hb. specialize (Hb f Hf). unfold resolves in *.
-    eapply ref_resolves_mono; [|exact Hb]. apply incl_appr, incl_refl.
+    eapply field_resolves_mono; [|exact Hb]. apply incl_appr, incl_refl.
 Qed.
 
-Lemma compile_ok_inv : forall e cs, compile e = Ok cs -> expand e = Ok cs /\ closed cs = true.
+Lemma compile_ok_inv : forall e cs, convert e = Ok cs -> expand e = Ok cs /\ closed cs = true.
 Proof.
-  intros e cs H. unfold compile in H. destruct (expand e) as [c| | |] eqn:E; try discriminate.
-  destruct (closed c) eqn:Ec; [|discriminate]. destruct (fields_ok e); [|discriminate].
+  intros e cs H. unfold convert in H. destruct (expand e) as [c| | |] eqn:E; try discriminate.
+  destruct (list_settings e); [discriminate|]. destruct (closed c) eqn:Ec; [|discriminate]. destruct (fields_ok e); [|discriminate].
   destruct (query_params_ok e && command_params_ok e); [|discriminate]. inversion H; subst. auto.
 Qed.
 
 (* a file of entities compiles to the concatenation of the entities' own expansions ... *)
-Theorem compile_all_inv : forall es cs, compile_all es = Ok cs ->
-  exists l, Forall2 (fun e c => compile e = Ok c) es l /\ cs = concat l.
+Theorem compile_all_inv : forall es cs, convert_all es = Ok cs ->
+  exists l, Forall2 (fun e c => convert e = Ok c) es l /\ cs = concat l.
 Proof.
-  induction es as [|e r IH]; intros cs H; cbn [compile_all] in H.
+  induction es as [|e r IH]; intros cs H; cbn [convert_all] in H.
   - inversion H. exists []. split; [constructor|reflexivity].
-  - destruct (compile e) as [a| | |] eqn:Ea; try discriminate.
-    destruct (compile_all r) as [b| | |] eqn:Eb; try discriminate. inversion H; subst.
+  - destruct (convert e) as [a| | |] eqn:Ea; try discriminate.
+    destruct (convert_all r) as [b| | |] eqn:Eb; try discriminate. inversion H; subst.
     destruct (IH b eq_refl) as [l [HF ->]]. exists (a :: l). split; [constructor; assumption|reflexivity].
 Qed.
 
 (* ... which is closed as a whole: an entity's references never depend on its neighbours *)
-Theorem compile_all_closed : forall es cs, compile_all es = Ok cs -> closed cs = true.
+Theorem compile_all_closed : forall es cs, convert_all es = Ok cs -> closed cs = true.
 Proof.
-  induction es as [|e r IH]; intros cs H; cbn [compile_all] in H.
+  induction es as [|e r IH]; intros cs H; cbn [convert_all] in H.
   - inversion H. reflexivity.
-  - destruct (compile e) as [a| | |] eqn:Ea; try discriminate.
-    destruct (compile_all r) as [b| | |] eqn:Eb; try discriminate. inversion H; subst.
+  - destruct (convert e) as [a| | |] eqn:Ea; try discriminate.
+    destruct (convert_all r) as [b| | |] eqn:Eb; try discriminate. inversion H; subst.
     apply closed_app; [exact (proj2 (compile_ok_inv e a Ea))|now apply IH].
 Qed.
 
